@@ -107,6 +107,7 @@ type Exec struct {
 	pathCompleted         bool // the harness returned normally on this path
 	parseCache            map[string]Value
 	files                 map[*StructObj]*fileModel
+	fs                    map[string]*fileModel
 	fileSeq               int
 	waitResult            Value
 	pipeOutput            []*Term
@@ -416,6 +417,11 @@ func width(t types.Type) (int, bool) {
 		return 64, false
 	}
 	return 0, false
+}
+
+func isFloat32(t types.Type) bool {
+	b, ok := t.Underlying().(*types.Basic)
+	return ok && b.Kind() == types.Float32
 }
 
 func isFloat(t types.Type) bool {
@@ -1203,14 +1209,12 @@ func (x *Exec) binop(op token.Token, a, b Value, t types.Type) Value {
 		}
 		if av.sort.FP {
 			switch op {
-			case token.ADD:
-				return fpbin("fp.add", av, bv)
-			case token.SUB:
-				return fpbin("fp.sub", av, bv)
-			case token.MUL:
-				return fpbin("fp.mul", av, bv)
-			case token.QUO:
-				return fpbin("fp.div", av, bv)
+			case token.ADD, token.SUB, token.MUL, token.QUO:
+				r := fpbin(map[token.Token]string{token.ADD: "fp.add", token.SUB: "fp.sub", token.MUL: "fp.mul", token.QUO: "fp.div"}[op], av, bv)
+				if t != nil && isFloat32(t) {
+					r = fpRound32(r) // float32 arithmetic: the float64 result rounded once more is the float32 result (53 >= 2*24+2)
+				}
+				return r
 			case token.EQL:
 				return fpcmp("fp.eq", av, bv)
 			case token.NEQ:
@@ -1378,6 +1382,9 @@ func (x *Exec) binop(op token.Token, a, b Value, t types.Type) Value {
 			switch p := av.v.(type) {
 			case Ptr:
 				eq = p.o == bi.v.(Ptr).o
+			case Native:
+				bn, _ := bi.v.(Native)
+				eq = p.v == bn.v
 			case *Term:
 				c := bvcmp("=", p, bi.v.(*Term))
 				if op == token.EQL {
@@ -1406,6 +1413,10 @@ func (x *Exec) convert(v Value, from, to types.Type) Value {
 			return Extend(v.(*Term), tw, fs)
 		}
 		if isFloat(to) {
+			if isFloat32(to) {
+				// via float64: exact below 2^53, may double-round above (stated in DESIGN.md)
+				return fpRound32(int64ToFP(Extend(v.(*Term), 64, fs), fs))
+			}
 			return int64ToFP(Extend(v.(*Term), 64, fs), fs)
 		}
 		if tb, ok := to.Underlying().(*types.Basic); ok && tb.Info()&types.IsString != 0 {
@@ -1429,6 +1440,9 @@ func (x *Exec) convert(v Value, from, to types.Type) Value {
 	}
 	if isFloat(from) {
 		if isFloat(to) {
+			if isFloat32(to) && !isFloat32(from) {
+				return fpRound32(v.(*Term))
+			}
 			return v
 		}
 		if tw, tsigned := width(to); tw > 0 {
@@ -1553,7 +1567,10 @@ func (x *Exec) resolveCall(fr *frame, cc *ssa.CallCommon) (callee, []Value) {
 		if recv.t == nil {
 			panic(panicPath{"nil interface invoke " + cc.Method.Name()})
 		}
-		if _, isNative := recv.v.(Native); isNative {
+		if nv, isNative := recv.v.(Native); isNative {
+			if _, isType := nv.v.(*rtypeModel); isType {
+				return callee{builtin: "rtype:" + cc.Method.Name()}, append([]Value{recv.v}, args...)
+			}
 			return callee{builtin: "opaque"}, args
 		}
 		m := x.prog.MethodSets.MethodSet(recv.t).Lookup(cc.Method.Pkg(), cc.Method.Name())
@@ -1669,6 +1686,9 @@ func (x *Exec) builtin(name string, args []Value, cc *ssa.CallCommon) Value {
 			}
 		}
 		return BV(uint64(n), 64)
+	}
+	if strings.HasPrefix(name, "rtype:") {
+		return x.rtypeMethod(name[6:], args)
 	}
 	switch name {
 	case "opaque":
